@@ -413,109 +413,6 @@ def m_inline_document(spec, rng):
     return _edit_body(spec, lambda t: _map_tree(t, fn))
 
 
-def m_same_name_kinds(spec, rng):
-    """two automatic styles of DIFFERENT kinds under one name (style:name is unique per kind only): a text:list-style
-    gets the name of a referenced automatic style:style of content.xml; its level refers to a text style that nothing
-    else refers to; a list in the body uses it"""
-    def edit(t):
-        au = L.kid(t, L.OFFICENS, 'automatic-styles'); body = L.kid(t, L.OFFICENS, 'body')
-        if au is None or body is None:
-            return t
-        refs = set(); L.refs_in(body, refs)
-        cands = [k for k in au[4] if k[0] == 'E' and (k[1], k[2]) == (L.STYLENS, 'style') and L.style_name(k) in refs]
-        if not cands:
-            return t
-        target = rng.choice(cands); nm = L.style_name(target)
-        only = nm + u'_only'
-        ls = ('E', L.TEXTNS, u'list-style', [(L.STYLENS, u'name', nm)],
-              [('E', L.TEXTNS, u'list-level-style-number', [(L.TEXTNS, u'level', u'1'), (L.TEXTNS, u'style-name', only), (L.STYLENS, u'num-format', u'1')], [])])
-        lonely = ('E', L.STYLENS, u'style', [(L.STYLENS, u'name', only), (L.STYLENS, u'family', u'text')],
-                  [('E', L.STYLENS, u'text-properties', [(L.FONS, u'font-weight', u'bold')], [])])
-        kids = []
-        before = rng.random() < 0.5
-        for k in au[4]:
-            if k is target and before: kids.append(ls)
-            kids.append(k)
-            if k is target and not before: kids.append(ls)
-        kids.append(lonely)
-        nau = ('E', au[1], au[2], au[3], kids)
-        lst = ('E', L.TEXTNS, u'list', [(L.TEXTNS, u'style-name', nm)],
-               [('E', L.TEXTNS, u'list-item', [], [('E', L.TEXTNS, u'p', [], [('T', u'same name, other kind')])])])
-        done = {'d': False}
-        def add(e):
-            # next to the first paragraph: as last child of the first element that holds a text:p
-            if not done['d'] and any(k[0] == 'E' and (k[1], k[2]) == (L.TEXTNS, 'p') for k in e[4]) and \
-                    (e[1], e[2]) in ((L.OFFICENS, 'text'), (L.TABLENS, 'table-cell'), (L.DRAWNS, 'text-box'), (L.TEXTNS, 'section'), (L.TEXTNS, 'list-item')):
-                done['d'] = True
-                return ('E', e[1], e[2], e[3], list(e[4]) + [lst])
-            return e
-        nbody = _map_tree(body, add)
-        if not done['d']:
-            return t
-        return ('E', t[1], t[2], t[3], [nau if k is au else nbody if k is body else k for k in t[4]])
-    return _edit_body(spec, edit)
-
-
-def m_replicate_objects(spec, rng):
-    """the first embedded object is replicated so that the package has 10-12 objects (Object 1 .. Object n, listed in
-    numeric order), each with its own text in the first cell / paragraph and its own frame in the body"""
-    tops = unique(p for p, _ in spec['manifest'] if re.match(u'^Object \\d+/$', p or u''))
-    if not tops:
-        return None
-    src = tops[0]
-    n = rng.randint(10, 12)
-    have = set(tops)
-    man = list(spec['manifest']); mem = list(spec['members'])
-    new = [u'Object %d/' % k for k in range(1, n + 1) if u'Object %d/' % k not in have]
-    def mark(tag):
-        st = {'d': False}
-        def fn(e):
-            if not st['d'] and (e[1], e[2]) == (L.TEXTNS, 'p'):
-                st['d'] = True
-                return ('E', e[1], e[2], e[3], [('T', u'copy for ' + tag)] + list(e[4]))
-            return e
-        return fn
-    for o in new:
-        for p, mt in spec['manifest']:
-            if p == src or (p.startswith(src) and p[len(src):] in L.PARTS):
-                man.append((o + p[len(src):], mt))
-        for nme, b in spec['members']:
-            if nme.startswith(src) and nme[len(src):] in L.PARTS:
-                if nme.endswith(u'content.xml'):
-                    t = L.parse_xml(b); pm = L.prefix_map(b)
-                    body = L.kid(t, L.OFFICENS, 'body')
-                    t2 = ('E', t[1], t[2], t[3], [_map_tree(k, mark(o)) if k is body else k for k in t[4]])
-                    if t2 == t:      # no paragraph: mark with a comment-like foreign attribute on the body child
-                        t2 = ('E', t[1], t[2], t[3], [('E', k[1], k[2], k[3], [('E', kk[1], kk[2], list(kk[3]) + [(FOREIGN, u'copy', o)], kk[4]) if kk[0] == 'E' else kk for kk in k[4]]) if k is body else k for k in t[4]])
-                    pf = prefixes_for(t2, pm)
-                    for ns in L.namespaces_of(t2):
-                        if ns not in pf and ns != L.XMLNS:
-                            pf[ns] = u'frgn%d' % len(pf)
-                    b = L.serialise(t2, pf)
-                mem.append((o + nme[len(src):], b))
-    # frames in the top document's body that refer to the new objects
-    def fn_top(t):
-        st = {'d': False}
-        def fn(e):
-            if not st['d'] and (e[1], e[2]) == (L.DRAWNS, 'page') or (not st['d'] and (e[1], e[2]) in ((L.OFFICENS, 'text'),) ):
-                st['d'] = True
-                frames = [('E', L.DRAWNS, u'frame', [(L.DRAWNS, u'name', u'copy %s' % o[:-1]), (L.SVGNS, u'width', u'2cm'), (L.SVGNS, u'height', u'2cm'), (L.SVGNS, u'x', u'1cm'), (L.SVGNS, u'y', u'1cm')],
-                           [('E', L.DRAWNS, u'object', [(L.XLINKNS, u'href', u'./' + o[:-1]), (L.XLINKNS, u'type', u'simple'), (L.XLINKNS, u'show', u'embed'), (L.XLINKNS, u'actuate', u'onLoad')], [])]) for o in new]
-                if (e[1], e[2]) == (L.OFFICENS, 'text'):
-                    frames = [('E', L.TEXTNS, u'p', [], [f]) for f in frames]
-                return ('E', e[1], e[2], e[3], list(e[4]) + frames)
-            return e
-        return _map_tree(t, fn)
-    s2 = {'mimetype': spec['mimetype'], 'manifest': man, 'members': mem}
-    # numeric order of the object entries in the manifest (the case that round-trips today)
-    def key(e):
-        mm = re.match(u'^Object (\\d+)/', e[0] or u'')
-        return (1, int(mm.group(1)), e[0]) if mm else (0, 0, u'')
-    objs = sorted([e for e in man if re.match(u'^Object \\d+/', e[0] or u'')], key=key)
-    s2['manifest'] = [e for e in man if not re.match(u'^Object \\d+/', e[0] or u'')] + objs
-    return _edit_body(s2, fn_top)
-
-
 def m_object_renumber(spec, rng):
     """the object folders get other numbers (Object 7, Object 12 ...), references follow"""
     tops = unique(p for p, _ in spec['manifest'] if re.match(u'^Object \\d+/$', p or u''))
@@ -787,3 +684,107 @@ def witness(which):
     content = {'w1': W1, 'w2': W2, 'w4': W4}[which].encode('utf-8')
     return {'mimetype': MT[u'text'], 'manifest': [(u'/', MT[u'text']), (u'content.xml', u'text/xml')],
             'members': [(u'content.xml', content)]}
+
+
+# ------------------------------------------------------------------------------------------- round 2 additions
+def m_same_name_kinds(spec, rng):
+    """two automatic styles of DIFFERENT kinds under one name (style:name is unique per kind only): a text:list-style
+    gets the name of a referenced automatic style:style of content.xml; its level refers to a text style that nothing
+    else refers to; a list in the body uses it"""
+    def edit(t):
+        au = L.kid(t, L.OFFICENS, 'automatic-styles'); body = L.kid(t, L.OFFICENS, 'body')
+        if au is None or body is None:
+            return t
+        refs = set(); L.refs_in(body, refs)
+        cands = [k for k in au[4] if k[0] == 'E' and (k[1], k[2]) == (L.STYLENS, 'style') and L.style_name(k) in refs]
+        if not cands:
+            return t
+        target = rng.choice(cands); nm = L.style_name(target)
+        only = nm + u'_only'
+        ls = ('E', L.TEXTNS, u'list-style', [(L.STYLENS, u'name', nm)],
+              [('E', L.TEXTNS, u'list-level-style-number', [(L.TEXTNS, u'level', u'1'), (L.TEXTNS, u'style-name', only), (L.STYLENS, u'num-format', u'1')], [])])
+        lonely = ('E', L.STYLENS, u'style', [(L.STYLENS, u'name', only), (L.STYLENS, u'family', u'text')],
+                  [('E', L.STYLENS, u'text-properties', [(L.FONS, u'font-weight', u'bold')], [])])
+        kids = []
+        before = rng.random() < 0.5
+        for k in au[4]:
+            if k is target and before: kids.append(ls)
+            kids.append(k)
+            if k is target and not before: kids.append(ls)
+        kids.append(lonely)
+        nau = ('E', au[1], au[2], au[3], kids)
+        lst = ('E', L.TEXTNS, u'list', [(L.TEXTNS, u'style-name', nm)],
+               [('E', L.TEXTNS, u'list-item', [], [('E', L.TEXTNS, u'p', [], [('T', u'same name, other kind')])])])
+        done = {'d': False}
+        def add(e):
+            if not done['d'] and any(k[0] == 'E' and (k[1], k[2]) == (L.TEXTNS, 'p') for k in e[4]) and \
+                    (e[1], e[2]) in ((L.OFFICENS, 'text'), (L.TABLENS, 'table-cell'), (L.DRAWNS, 'text-box'), (L.TEXTNS, 'section'), (L.TEXTNS, 'list-item')):
+                done['d'] = True
+                return ('E', e[1], e[2], e[3], list(e[4]) + [lst])
+            return e
+        nbody = _map_tree(body, add)
+        if not done['d']:
+            return t
+        return ('E', t[1], t[2], t[3], [nau if k is au else nbody if k is body else k for k in t[4]])
+    return _edit_body(spec, edit)
+
+
+def m_replicate_objects(spec, rng):
+    """the first embedded object is replicated so that the package has 10-12 objects (Object 1 .. Object n, listed in
+    numeric order), each with its own text in its first paragraph and its own frame in the top document's body"""
+    tops = unique(p for p, _ in spec['manifest'] if re.match(u'^Object \\d+/$', p or u''))
+    if not tops:
+        return None
+    src = tops[0]
+    n = rng.randint(10, 12)
+    have = set(tops)
+    man = list(spec['manifest']); mem = list(spec['members'])
+    new = [u'Object %d/' % k for k in range(1, n + 1) if u'Object %d/' % k not in have]
+    def mark(tag):
+        st = {'d': False}
+        def fn(e):
+            if not st['d'] and (e[1], e[2]) == (L.TEXTNS, 'p'):
+                st['d'] = True
+                return ('E', e[1], e[2], e[3], [('T', u'copy for ' + tag)] + list(e[4]))
+            return e
+        return fn
+    for o in new:
+        for p, mt in spec['manifest']:
+            if p == src or (p.startswith(src) and p[len(src):] in L.PARTS):
+                man.append((o + p[len(src):], mt))
+        for nme, b in spec['members']:
+            if nme.startswith(src) and nme[len(src):] in L.PARTS:
+                if nme.endswith(u'content.xml'):
+                    t = L.parse_xml(b); pm = L.prefix_map(b)
+                    body = L.kid(t, L.OFFICENS, 'body')
+                    t2 = ('E', t[1], t[2], t[3], [_map_tree(k, mark(o)) if k is body else k for k in t[4]])
+                    if t2 == t:      # no paragraph: mark the child of the body with a foreign attribute
+                        t2 = ('E', t[1], t[2], t[3], [('E', k[1], k[2], k[3], [('E', kk[1], kk[2], list(kk[3]) + [(FOREIGN, u'copy', o)], kk[4]) if kk[0] == 'E' else kk for kk in k[4]]) if k is body else k for k in t[4]])
+                    pf = prefixes_for(t2, pm)
+                    for ns in L.namespaces_of(t2):
+                        if ns not in pf and ns != L.XMLNS:
+                            pf[ns] = u'frgn%d' % len(pf)
+                    b = L.serialise(t2, pf)
+                mem.append((o + nme[len(src):], b))
+    def fn_top(t):
+        st = {'d': False}
+        def fn(e):
+            if not st['d'] and (e[1], e[2]) in ((L.DRAWNS, 'page'), (L.OFFICENS, 'text'), (L.TABLENS, 'shapes')):
+                st['d'] = True
+                frames = [('E', L.DRAWNS, u'frame', [(L.DRAWNS, u'name', u'copy %s' % o[:-1]), (L.SVGNS, u'width', u'2cm'), (L.SVGNS, u'height', u'2cm'), (L.SVGNS, u'x', u'1cm'), (L.SVGNS, u'y', u'1cm')],
+                           [('E', L.DRAWNS, u'object', [(L.XLINKNS, u'href', u'./' + o[:-1]), (L.XLINKNS, u'type', u'simple'), (L.XLINKNS, u'show', u'embed'), (L.XLINKNS, u'actuate', u'onLoad')], [])]) for o in new]
+                if (e[1], e[2]) == (L.OFFICENS, 'text'):
+                    frames = [('E', L.TEXTNS, u'p', [], [f]) for f in frames]
+                return ('E', e[1], e[2], e[3], list(e[4]) + frames)
+            return e
+        return _map_tree(t, fn)
+    def key(e):
+        mm = re.match(u'^Object (\\d+)/', e[0] or u'')
+        return (int(mm.group(1)), e[0])
+    objs = sorted([e for e in man if re.match(u'^Object \\d+/', e[0] or u'')], key=key)
+    s2 = {'mimetype': spec['mimetype'], 'members': mem,
+          'manifest': [e for e in man if not re.match(u'^Object \\d+/', e[0] or u'')] + objs}
+    return _edit_body(s2, fn_top)
+
+
+MUTATORS += [('same-name-kinds', m_same_name_kinds), ('replicate-objects', m_replicate_objects)]
